@@ -389,6 +389,19 @@ TWO_H = ("import dataclasses, tlg_c09_ma, tlg_c09_mb\n@dataclasses.dataclass\ncl
          "    la: list[tlg_c09_ma.Item]\n    db: dict[str, tlg_c09_mb.Item]\n")
 
 
+SPECIAL_F = '''from __future__ import annotations
+import dataclasses, typing
+@dataclasses.dataclass
+class OuterF:
+    @dataclasses.dataclass
+    class InnerF:
+        x: int = 0
+        up: typing.Optional[OuterF] = None
+    i: InnerF = None
+    many: list[InnerF] = dataclasses.field(default_factory=list)
+'''
+
+
 def run_special(res):
     cold.clear_all()
     ns = prelude.mkmod("tlg_c09_special", SPECIAL).__dict__
@@ -405,6 +418,16 @@ def run_special(res):
             nodes = invariants(r, f"{form} of {nm}", res, dict(case, name=nm, form=form), shape=f"special:{nm}/root={form}", expect_deferred_alias=exp)
             if form == "cls":
                 forms(ns, "tlg_c09_special", nm, r, res, dict(case, name=nm, form=form), f"special:{nm}", nodes)
+    # postponed annotations naming a NESTED class by its bare name (resolvable only through the namespace of the outer class)
+    nsf = prelude.mkmod("tlg_c09_special_f", SPECIAL_F).__dict__
+    for form in ("cls", "list", "dict"):
+        root = nsf["OuterF"]
+        r = {"cls": root, "list": list[root], "dict": dict[str, root]}[form]
+        cold.clear_all()
+        nodes = invariants(r, f"{form} of OuterF", res, dict(case, name="OuterF", form=form), shape=f"special:OuterF(bare-nested-name)/root={form}")
+        if nodes and not any(n.type is root.InnerF and not n.cyclic for n in nodes):
+            res.violation(f"C09/I4-members-first/special:OuterF(bare-nested-name)/root={form}/member-missing",
+                          f"static_order({form} of OuterF) has no node for the nested class OuterF.InnerF (field `i: InnerF`): {short([n.type for n in nodes], 200)}", dict(case, name="OuterF", form=form))
     prelude.mkmod("tlg_c09_ma", TWO_A)
     prelude.mkmod("tlg_c09_mb", TWO_B)
     h = prelude.mkmod("tlg_c09_mh", TWO_H).__dict__
